@@ -321,3 +321,62 @@ func (o *Once) Do(f func()) {
 }
 
 type Map = sync.Map
+
+// Cond (not used by the code under test today; present so that a change which introduces it still builds
+// and stays under the scheduler's control).
+type Cond struct {
+	L     Locker
+	real  *sync.Cond
+	gen   int
+	woken int // signals not yet consumed
+	wait  int
+}
+
+func NewCond(l Locker) *Cond { return &Cond{L: l} }
+
+func (c *Cond) r() *sync.Cond {
+	if c.real == nil {
+		c.real = sync.NewCond(c.L)
+	}
+	return c.real
+}
+
+func (c *Cond) Wait() {
+	if !vrt.On() {
+		c.r().Wait()
+		return
+	}
+	c.wait++
+	my := c.gen
+	c.L.Unlock()
+	vrt.Block("cond.Wait", vrt.ObjName("cond", c), func() bool { return c.gen != my || c.woken > 0 })
+	if c.gen == my {
+		c.woken--
+	}
+	c.wait--
+	vrt.HBAcquire(c)
+	c.L.Lock()
+}
+
+func (c *Cond) Signal() {
+	if !vrt.On() {
+		c.r().Signal()
+		return
+	}
+	vrt.HBRelease(c)
+	if c.wait > c.woken {
+		c.woken++
+	}
+	vrt.Yield("cond.Signal", "")
+}
+
+func (c *Cond) Broadcast() {
+	if !vrt.On() {
+		c.r().Broadcast()
+		return
+	}
+	vrt.HBRelease(c)
+	c.gen++
+	c.woken = 0
+	vrt.Yield("cond.Broadcast", "")
+}
